@@ -48,6 +48,8 @@ def run(ctx):
         rule_enum(ctx, M)
         rule_take(ctx, M)
         rule_collect(ctx, M)
+        from . import common as _common
+        _common.rule_no_shadow(ctx, M, {"enumerate", "limit", "take", "map", "for_each", "try_for_each", "collect", "drive", "concurrency_limit", "co", "into_co_stream"}, "C15.STACK", "ConcurrentStream", receivers=_common.CS_TRAITS)
         c13.rule_group_container(ctx, M, "C15.COLLECT", ("VecConsumer", "ResultVecConsumer"))
         rule_prealloc(ctx, M, "C15.COLLECT")
         with ctx.renamed({"C14.RESVEC": "C15.COLLECT"}):
